@@ -319,7 +319,7 @@ func runC09(c *Ctx, r *Rec) {
 				}
 				if hasIdx {
 					n++
-					if !isSwap(as) {
+					if !isSwap(as) && !exchangeThroughLocals(info, fd, as) {
 						bad = "an element store at " + c.pos(as.Pos()) + " is not a swap of two positions: the result need not be a permutation"
 					}
 				}
@@ -331,6 +331,164 @@ func runC09(c *Ctx, r *Rec) {
 		}
 		r.verdict("D6-shuffle-swaps", c.fdName(fd), c.pos(fd.Pos()), fmt.Sprintf("%d element store(s), all swaps", n), bad)
 	}
+}
+
+// exchangeThroughLocals: the store is a member of a statement list that exchanges cells by way of
+// locals (`t = a[i]; a[i] = a[j]; a[j] = t`, or one local per cell).  The list is read in order:
+// a local assigned from a cell holds what the cell holds at that point, a cell assigned from a
+// local or a cell holds that.  At the end the written cells hold, between them, exactly what they
+// held at the start; no variable of an index is assigned in the list.
+func exchangeThroughLocals(info *types.Info, fd *ast.FuncDecl, store *ast.AssignStmt) bool {
+	var list []ast.Stmt
+	ast.Inspect(fd.Body, func(x ast.Node) bool {
+		var l []ast.Stmt
+		switch b := x.(type) {
+		case *ast.BlockStmt:
+			l = b.List
+		case *ast.CaseClause:
+			l = b.Body
+		}
+		for _, st := range l {
+			if st == ast.Stmt(store) {
+				list = l
+			}
+		}
+		return list == nil
+	})
+	if list == nil {
+		return false
+	}
+	cell := map[string]string{} // text of a cell -> token it holds
+	local := map[types.Object]string{}
+	indexVars := map[types.Object]bool{}
+	written := map[string]bool{}
+	valOf := func(e ast.Expr) (string, bool) {
+		e = ast.Unparen(e)
+		switch x := e.(type) {
+		case *ast.IndexExpr:
+			k := exprStr(x)
+			ast.Inspect(x.Index, func(y ast.Node) bool {
+				if id, ok := y.(*ast.Ident); ok {
+					if o := info.Uses[id]; o != nil {
+						indexVars[o] = true
+					}
+				}
+				return true
+			})
+			if v, ok := cell[k]; ok {
+				return v, true
+			}
+			return "@" + k, true
+		case *ast.Ident:
+			if v, ok := local[info.Uses[x]]; ok {
+				return v, true
+			}
+		}
+		return "", false
+	}
+	for _, st := range list {
+		switch a := st.(type) {
+		case *ast.AssignStmt:
+			if len(a.Lhs) != len(a.Rhs) {
+				for _, l := range a.Lhs {
+					if _, isIx := ast.Unparen(l).(*ast.IndexExpr); isIx {
+						return false
+					}
+					if o := identObj(info, l); o != nil {
+						delete(local, o)
+						if indexVars[o] {
+							return false
+						}
+					}
+				}
+				continue
+			}
+			vals := make([]string, len(a.Rhs))
+			oks := make([]bool, len(a.Rhs))
+			for i, rh := range a.Rhs {
+				vals[i], oks[i] = valOf(rh)
+			}
+			for i, l := range a.Lhs {
+				l = ast.Unparen(l)
+				if ix, isIx := l.(*ast.IndexExpr); isIx {
+					if !oks[i] {
+						return false
+					}
+					k := exprStr(ix)
+					if _, seen := cell[k]; !seen {
+						valOf(ix) // registers the variables of the index
+					}
+					cell[k] = vals[i]
+					written[k] = true
+					continue
+				}
+				if o := identObj(info, l); o != nil {
+					if indexVars[o] {
+						return false
+					}
+					if oks[i] {
+						local[o] = vals[i]
+					} else {
+						delete(local, o)
+					}
+				}
+			}
+		case *ast.IncDecStmt:
+			if o := identObj(info, a.X); o != nil && indexVars[o] {
+				return false
+			}
+		case *ast.DeclStmt:
+			if gd, ok := a.Decl.(*ast.GenDecl); ok {
+				for _, sp := range gd.Specs {
+					if vs, ok := sp.(*ast.ValueSpec); ok && len(vs.Names) == len(vs.Values) {
+						for i, nm := range vs.Names {
+							if v, ok := valOf(vs.Values[i]); ok && info.Defs[nm] != nil {
+								local[info.Defs[nm]] = v
+							}
+						}
+					}
+				}
+			}
+		default:
+			// a compound statement or a call: it must not store elements or touch the locals in play
+			touches := false
+			ast.Inspect(st, func(y ast.Node) bool {
+				switch z := y.(type) {
+				case *ast.AssignStmt:
+					for _, l := range z.Lhs {
+						if _, isIx := ast.Unparen(l).(*ast.IndexExpr); isIx {
+							touches = true
+						}
+						if o := identObj(info, l); o != nil && (indexVars[o] || local[o] != "") {
+							touches = true
+						}
+					}
+				case *ast.IncDecStmt:
+					if o := identObj(info, z.X); o != nil && (indexVars[o] || local[o] != "") {
+						touches = true
+					}
+				}
+				return !touches
+			})
+			if touches {
+				return false
+			}
+		}
+	}
+	if len(written) < 2 {
+		return false
+	}
+	have := map[string]int{}
+	for k := range written {
+		have["@"+k]++
+		have[cell[k]]--
+	}
+	for _, d := range have {
+		if d != 0 {
+			return false
+		}
+	}
+	return true
 }
 
 func isSwap(as *ast.AssignStmt) bool {
@@ -1034,6 +1192,36 @@ func checkSortDriver(c *Ctx, r *Rec, info *types.Info, fd *ast.FuncDecl, merge *
 		if cl, ok := e.(*ast.CallExpr); ok && cl == call {
 			var row [3]sl
 			for i, a := range cl.Args {
+				// a run kept in a local that is defined once in the block loop, from bounds that are
+				// not assigned between the definition and the call
+				if id, isId := ast.Unparen(a).(*ast.Ident); isId {
+					if init := initOfIn(info, inner.Body, id); init != nil {
+						if ise, isSl := ast.Unparen(init).(*ast.SliceExpr); isSl {
+							stable := true
+							inspectNoLit(inner.Body, func(y ast.Node) bool {
+								if y == nil || y.Pos() <= init.Pos() || y.Pos() >= cl.Pos() {
+									return true
+								}
+								var tg []ast.Expr
+								switch z := y.(type) {
+								case *ast.AssignStmt:
+									tg = z.Lhs
+								case *ast.IncDecStmt:
+									tg = []ast.Expr{z.X}
+								}
+								for _, l := range tg {
+									if o := identObj(info, l); o != nil && mentionsObj(info, ise, o) {
+										stable = false
+									}
+								}
+								return stable
+							})
+							if stable {
+								a = ise
+							}
+						}
+					}
+				}
 				se, ok := ast.Unparen(a).(*ast.SliceExpr)
 				if !ok || se.Low == nil || se.High == nil {
 					row[i] = sl{base: "?"}
@@ -1078,7 +1266,16 @@ func checkSortDriver(c *Ctx, r *Rec, info *types.Info, fd *ast.FuncDecl, merge *
 	{
 		dg := newFG(info, fd.Body)
 		isMerge := func(n ast.Node) bool { return containsNode(n, call) }
-		if !dg.everyIterationPasses(inner, isMerge) {
+		carriesOver := func(n ast.Node) bool {
+			// a block without a partner may be carried over by a plain copy instead of a merge with an empty run
+			return containsNode(n, call) || nodeHas(n, func(y ast.Node) bool {
+				cl, ok := y.(*ast.CallExpr)
+				return ok && isBuiltinCall(info, cl, "copy")
+			})
+		}
+		if !dg.everyIterationPasses(inner, isMerge) && dg.everyIterationPasses(inner, carriesOver) {
+			r.skip(rule, construct+"/every-block", c.pos(inner.Pos()), "an iteration of the block loop carries its block over with copy() instead of the merge helper: which block goes where is not followed")
+		} else if !dg.everyIterationPasses(inner, isMerge) {
 			r.fail(rule, construct+"/every-block", c.pos(inner.Pos()), "an iteration of the block loop can finish without calling the merge helper: that block is not carried over to the destination array and the next pass reads stale values there")
 		} else {
 			early := ""
